@@ -664,8 +664,11 @@ Section Body.
       Ok (l, CNone)
     | Trans => Panic "unreachable: Trans action should have been resolved earlier"
     | Repeat =>
+      (* `self.rpt_action.take()`, restored afterwards unless the repeated action set a new one *)
       match rpt_action l with
-      | Some ac => '(l, _) <- doact l ac c delay is_oneshot [] ;; Ok (l, CNone)
+      | Some ac =>
+        '(l, _) <- doact (set_rpt_action None l) ac c delay is_oneshot [] ;;
+        Ok (match rpt_action l with None => set_rpt_action (Some ac) l | Some _ => l end, CNone)
       | None => Ok (l, CNone)
       end
     | HoldTap timeout hold tap timeout_ac htc interval =>
